@@ -1565,8 +1565,10 @@ fn gen_c11(r: &mut Rng, seed: u64, idx: u64) -> Scenario {
                 push_tags(&mut tags, &["expect:*/WriteHandleDataStreamFailed", "affects:handles", "fd-dir"]);
             }
             16 => {
-                if crate::gen::spoil_first_lib_name(&mut b, &cfg) {
-                    push_tags(&mut tags, &["expect:*/WriteDSODebugStreamFailed", "affects:dso", "linkmap-name-not-utf8"]);
+                // the name pointer of a linker-list entry is not readable (a name that merely is not UTF-8
+                // is no failure: it is recorded with replacement characters)
+                if crate::gen::spoil_last_lib_name_pointer(&mut b, &cfg) {
+                    push_tags(&mut tags, &["expect:*/WriteDSODebugStreamFailed", "affects:dso", "linkmap-name-unreadable"]);
                 }
             }
             _ => {}
